@@ -172,7 +172,8 @@ fn call_bool<F: FnOnce() -> bool>(f: F) -> String {
     }
 }
 fn pa_from(a: &[u8]) -> BlockHashPositionArray {
-    let mut pa = BlockHashPositionArray::new();
+    // both ways of making one (new / Default), by the parity of the string's length
+    let mut pa = if a.len() % 2 == 0 { BlockHashPositionArray::new() } else { BlockHashPositionArray::default() };
     pa.init_from(a);
     pa
 }
@@ -936,7 +937,7 @@ pub fn drive_reuse(a: &Args, histories: usize, loop_len: usize) {
     for _ in 0..histories {
         sh.next_unit();
         let pool = pool_hashes(&mut rng, 6);
-        let mut t = FuzzyHashCompareTarget::new();
+        let mut t = if pool.len() % 2 == 0 || pool[1].a.len() % 2 == 0 { FuzzyHashCompareTarget::new() } else { FuzzyHashCompareTarget::default() };
         sh.emit("{\"ev\":\"tnew\",\"t\":0}");
         tobs(&mut sh, 0, &t, None, &pool[..2]);
         let len = rng.range(2, 5);
